@@ -89,6 +89,10 @@ class Payoff:
         """
         pass
 
+    def update(self, log_representation: bool) -> None:
+        """Tell a path-dependent payoff whether the paths passed to :func:`process` are the logarithms of the underlying"""
+        pass
+
     def dimension(self) -> int:
         """Payoff dimension. In most cases, the payoff is unidimensional. For a swaption, the dimension is the number
         of underlying swap rates in consideration."""
@@ -257,6 +261,7 @@ class Barrier(Payoff):
         super().__init__()
         self.vanilla = Vanilla(strike=strike, payoff_type=payoff_type)
         self.barrier = barrier
+        self._barrier_level = barrier  # barrier in the representation of the processed paths
         self.barrier_event = False  # it might be True depending on the spot price
         self.barrier_type = barrier_type
 
@@ -275,16 +280,19 @@ class Barrier(Payoff):
     def __barrier_event_down(self, _, path):
         self.barrier_event = False  # the event is a property of the current path only
         for value in path:
-            if value < self.barrier:
+            if value < self._barrier_level:
                 self.barrier_event = True
                 break
 
     def __barrier_event_up(self, _, path):
         self.barrier_event = False  # the event is a property of the current path only
         for value in path:
-            if value > self.barrier:
+            if value > self._barrier_level:
                 self.barrier_event = True
                 break
+
+    def update(self, log_representation: bool) -> None:
+        self._barrier_level = np.log(self.barrier) if log_representation else self.barrier
 
     def evaluate(self, underlying: float) -> float:
         return self._evaluate_impl(underlying)
